@@ -35,8 +35,8 @@ RULE = (
 ASSUMPTIONS = [
     "expanded nodes are either consumed (non-terminal) nodes or output-less sinks; every consumed output of an expanded node is mapped "
     "to an existing output-less sink of the sub-graph (what the output map is documented to select)",
-    "sub-graph terminals are output-less sinks (only those can be leaves); unmapped inner sinks of a consumed expanded node are not "
-    "required to survive",
+    "leaves selected by an output map are terminal nodes of the sub-graph that are output-less or declare just the default output; "
+    "unmapped inner sinks of a consumed expanded node are not required to survive",
     "the fusion callback used is denotation-preserving by construction; the check additionally demands the documented rule that a "
     "candidate is offered only when the parent has no other consumer",
     "CutEdge names are hash based (PYTHONHASHSEED=0 in the runner); a hash collision between two cut edges would be reported",
@@ -96,7 +96,10 @@ def sub_specs(draw, need_sinks: list[str], source_names_hint: list[str], prefix:
             src = draw(st.integers(0, n_with_out - 1))
             so = nodes[src]["outputs"]
             ins[k] = [src, "0" if so is None else draw(st.sampled_from(so))]
-        nodes.append({"name": nm, "outputs": [], "payload": draw(small_payloads), "inputs": ins})
+        # a leaf selected by the output map is a terminal node of the sub-graph: an output-less sink, or a terminal that still
+        # declares the default output (consumers of the expanded node are wired to that output)
+        outs = draw(st.sampled_from([[], [], None])) if nm in need_sinks else []
+        nodes.append({"name": nm, "outputs": outs, "payload": draw(small_payloads), "inputs": ins})
     return {"nodes": nodes}
 
 
